@@ -40,6 +40,7 @@ fn main() {
         .find_map(|e| e.strip_prefix("inputs=").map(|v| v.parse().unwrap()))
         .unwrap_or(40);
     let validate = !o.extra.iter().any(|e| e == "novalidate");
+    let bang_always = o.extra.iter().any(|e| e == "bang=always");
     let exh: usize = o
         .extra
         .iter()
@@ -59,7 +60,7 @@ fn main() {
     let mut panics: Vec<String> = vec![];
     for gi in 0..o.n {
         let allow_bang = r.chance(1, 4);
-        let cfg = gen_cfg(&mut r, allow_bang);
+        let cfg = if bang_always { gen_cfg_recovery(&mut r) } else { gen_cfg(&mut r, allow_bang) };
         h.hit(&format!("origin:{}", cfg.origin.split('+').next().unwrap()));
         for algo in ["lane", "lr1", "lalr"] {
             let mut cfg2 = cfg.clone();
@@ -143,6 +144,20 @@ fn main() {
                         }
                     };
                     kinds.retain(|k| *k != Some(usize::MAX));
+                    // truncation: proper prefixes exercise the end-of-input error paths
+                    if r.chance(1, 6) && !kinds.is_empty() {
+                        let keep = r.below(kinds.len());
+                        kinds.truncate(keep);
+                        h.hit("input:truncated");
+                    }
+                    // a burst of junk (several consecutive dropped tokens during recovery)
+                    if r.chance(1, 8) && !used.is_empty() {
+                        let j = r.below(kinds.len() + 1);
+                        for _ in 0..2 + r.below(3) {
+                            kinds.insert(j, Some(*r.pick(&used)));
+                        }
+                        h.hit("input:burst");
+                    }
                     // mutations
                     let muts = match r.below(4) {
                         0 => 0,
